@@ -400,6 +400,8 @@ def build(tier="quick", seed=0):
     sc = stacks_for(tier)
     for stack, nd, sf in sc:
         one_stack(b, stack, nd, sf)
+    from contracts import tv_radial
+    tv_radial.interfaces(b, seed)
     b.samples.append(dict(stacks=len(sc), example=dict(stack=sc[100][0], nondim=sc[100][1], solve_for=list(sc[100][2]))))
     b.explanation = ("whole-function symbolic execution of the real cf_radial_solver and callees per layer stack; surface clauses proved from the zgesv contract by an exact linear "
                      "certificate, interface clauses as exact rational identities in the opaque layer solutions")
